@@ -163,6 +163,8 @@ def structure(stmts, cont, k):
         in_body = any(_has_return(x) for x in s.body)
         in_else = any(_has_return(x) for x in s.orelse)
         in_handlers = [any(_has_return(x) for x in h.body) for h in s.handlers]
+        if after and not s.finalbody and _terminates([s]):
+            after = []         # every path through the try returns / raises: what would follow is dead
         if not after:
             return [ast.copy_location(ast.Try(body=structure(s.body, [], k) or [ast.Pass()],
                                               handlers=[ast.copy_location(ast.ExceptHandler(type=h.type, name=h.name, body=structure(h.body, [], k) or [ast.Pass()]), h)
